@@ -192,6 +192,7 @@ pub fn c03() -> SchedCampaign {
             Family { weight: 2, params: inv("invalid-60", 60, 25) },
             Family { weight: 2, params: inv("invalid-10-nonce-off", 10, 100) },
             Family { weight: 2, params: inv("conditional-validity", 0, 0) },
+            Family { weight: 1, params: pointer_family() },
             Family {
                 weight: 4,
                 params: GenParams {
@@ -241,6 +242,7 @@ pub fn c07() -> SchedCampaign {
             Family { weight: 3, params: ben("ben-sender", &[BenRole::Sender]) },
             Family { weight: 3, params: ben("ben-contract", &[BenRole::Contract]) },
             Family { weight: 2, params: ben("ben-near-overflow", &[BenRole::NearOverflow]) },
+            Family { weight: 1, params: pointer_family() },
         ],
         profiles: ProfileWeights {
             focus_classes: &[Class::Mv, Class::ExecPublish, Class::ValidateScan, Class::Commit, Class::EstimateRewind],
